@@ -93,6 +93,44 @@ Proof.
   apply NW_app; [exact H|apply IH].
 Qed.
 
+(* ---------- the same with abortive clients ---------- *)
+Fixpoint e2e_run_ab (st : state) (next : N) (ops : list (list N * e2e_op)) : state :=
+  match ops with
+  | [] => st
+  | (ab, o) :: t => let '(st', n') := e2e_step_ab L ab st next o in e2e_run_ab st' n' t
+  end.
+
+Lemma abortive_nw fuel : forall ab st next, NW (abortive_ops L fuel ab st next).
+Proof.
+  induction fuel as [|f IH]; intros ab st next; cbn [abortive_ops]; [reflexivity|].
+  destruct (find (in_progress st) ab) as [c|]; [|reflexivity].
+  apply NW_app; [apply e2e_ops_nw | apply IH].
+Qed.
+
+Lemma e2e_ops_ab_nw ab st next o : NW (fst (e2e_ops_ab L ab st next o)).
+Proof.
+  unfold e2e_ops_ab. pose proof (e2e_ops_nw st next o) as H. destruct (e2e_ops L st next o) as [os n']. cbn [fst] in *.
+  apply NW_app; [exact H | apply abortive_nw].
+Qed.
+
+Theorem e2e_script_ab_nw : forall ops st next, NW (e2e_script_ab L st next ops).
+Proof.
+  induction ops as [|[ab o] t IH]; intros st next; cbn [e2e_script_ab]; [reflexivity|].
+  pose proof (e2e_ops_ab_nw ab st next o) as H. destruct (e2e_ops_ab L ab st next o) as [os n']. cbn [fst] in H.
+  apply NW_app; [exact H | apply IH].
+Qed.
+
+Theorem e2e_run_ab_is_run : forall ops st next, e2e_run_ab st next ops = run L st (e2e_script_ab L st next ops).
+Proof.
+  induction ops as [|[ab o] t IH]; intros st next; cbn [e2e_run_ab e2e_script_ab]; [reflexivity|].
+  unfold e2e_step_ab. destruct (e2e_ops_ab L ab st next o) as [os n']. rewrite run_app. apply IH.
+Qed.
+
+Theorem e2e_ab_state_inv W kinds ops : AInv (e2e_run_ab (init W kinds) 1%N ops).
+Proof.
+  rewrite e2e_run_ab_is_run. apply reachable_a, e2e_script_ab_nw.
+Qed.
+
 (* ---------- so every invariant of runs holds in every state the oracle computes ---------- *)
 Theorem e2e_states_are_reachable W kinds ops :
   exists os, forallb nwb_op os = true /\ e2e_run (init W kinds) 1%N ops = run L (init W kinds) os.
